@@ -4,6 +4,13 @@ Soundness of the static discipline `post` w.r.t. the interpreter `run` (helper l
 -/
 namespace CssVerif.Mutators
 
+@[simp] theorem St.setCur_ro (s : St) (f : Field) (v : Nat) : (s.setCur f v).readonly = s.readonly := rfl
+@[simp] theorem St.setSaved_ro (s : St) (f : Field) (v : Nat) : (s.setSaved f v).readonly = s.readonly := rfl
+@[simp] theorem St.setFlag_ro (s : St) (b : Flag) (v : Bool) : (s.setFlag b v).readonly = s.readonly := rfl
+@[simp] theorem St.assign_ro (s : St) (f : Field) : (s.assign f).readonly = s.readonly := rfl
+@[simp] theorem St.mutate_ro (s : St) (f : Field) : (s.mutate f).readonly = s.readonly := by
+  unfold St.mutate; split <;> rfl
+
 /-- the abstract state `a` describes the concrete state `s` relative to the entry state `s0` -/
 structure Sound (s0 s : St) (a : Abs) : Prop where
   clean : ∀ f ∈ a.clean, s.cur f = s0.cur f
@@ -11,6 +18,7 @@ structure Sound (s0 s : St) (a : Abs) : Prop where
   fresh : ∀ f ∈ a.fresh, s0.next ≤ s.cur f
   known : ∀ p ∈ a.known, s.flags p.1 = p.2
   next : s0.next ≤ s.next
+  nro : a.nro = true → s.readonly = false
 
 def Holds (s0 : St) (o : Option Abs) (s : St) : Prop := ∃ a, o = some a ∧ Sound s0 s a
 
@@ -25,28 +33,36 @@ def OK (s0 : St) (r : Res) (p : Post) : Prop :=
   | .stuck => True
 
 theorem Sound.meet_left {s0 s : St} {a : Abs} (b : Abs) (h : Sound s0 s a) : Sound s0 s (a.meet b) := by
-  refine ⟨?_, ?_, ?_, ?_, h.next⟩
+  refine ⟨?_, ?_, ?_, ?_, h.next, ?_⟩
   · intro f hf; exact h.clean f (List.mem_filter.mp hf).1
   · intro f hf; exact h.valid f (List.mem_filter.mp hf).1
   · intro f hf; exact h.fresh f (List.mem_filter.mp hf).1
   · intro p hp; exact h.known p (List.mem_filter.mp hp).1
+  · intro hn; simp only [Abs.meet, Bool.and_eq_true] at hn; exact h.nro hn.1
 
 theorem Sound.meet_right {s0 s : St} {b : Abs} (a : Abs) (h : Sound s0 s b) : Sound s0 s (a.meet b) := by
-  refine ⟨?_, ?_, ?_, ?_, h.next⟩
+  refine ⟨?_, ?_, ?_, ?_, h.next, ?_⟩
   · intro f hf; exact h.clean f (by simpa using (List.mem_filter.mp hf).2)
   · intro f hf; exact h.valid f (by simpa using (List.mem_filter.mp hf).2)
   · intro f hf; exact h.fresh f (by simpa using (List.mem_filter.mp hf).2)
   · intro p hp; exact h.known p (by simpa using (List.mem_filter.mp hp).2)
+  · intro hn; simp only [Abs.meet, Bool.and_eq_true] at hn; exact h.nro hn.2
 
 theorem Sound.of_le {s0 s : St} {i x : Abs} (hle : i.le x = true) (h : Sound s0 s x) : Sound s0 s i := by
   simp only [Abs.le, Bool.and_eq_true, List.all_eq_true, decide_eq_true_eq] at hle
-  obtain ⟨⟨⟨h1, h2⟩, h3⟩, h4⟩ := hle
-  exact ⟨fun f hf => h.clean f (h1 f hf), fun f hf => h.valid f (h2 f hf),
-         fun f hf => h.fresh f (h3 f hf), fun p hp => h.known p (h4 p hp), h.next⟩
+  obtain ⟨⟨⟨⟨h1, h2⟩, h3⟩, h4⟩, h5⟩ := hle
+  refine ⟨fun f hf => h.clean f (h1 f hf), fun f hf => h.valid f (h2 f hf),
+         fun f hf => h.fresh f (h3 f hf), fun p hp => h.known p (h4 p hp), h.next, ?_⟩
+  intro hn
+  apply h.nro
+  cases hx : x.nro
+  · simp [hn, hx] at h5
+  · rfl
 
 theorem Sound.bot {s0 s : St} {a : Abs} (h : Sound s0 s a) : Sound s0 s Abs.bot :=
   ⟨fun _ hf => by simp [Abs.bot] at hf, fun _ hf => by simp [Abs.bot] at hf,
-   fun _ hf => by simp [Abs.bot] at hf, fun _ hf => by simp [Abs.bot] at hf, h.next⟩
+   fun _ hf => by simp [Abs.bot] at hf, fun _ hf => by simp [Abs.bot] at hf, h.next,
+   fun hn => by simp [Abs.bot] at hn⟩
 
 theorem Holds.omeet_left {s0 s : St} {o : Option Abs} (o' : Option Abs) (h : Holds s0 o s) :
     Holds s0 (omeet o o') s := by
@@ -77,7 +93,7 @@ variable {s0 s : St} {a : Abs}
 
 theorem sound_assign (f : Field) (h : Sound s0 s a) :
     Sound s0 (s.assign f) { a with clean := a.clean.filter (· ≠ f), fresh := f :: a.fresh } := by
-  refine ⟨?_, ?_, ?_, ?_, ?_⟩
+  refine ⟨?_, ?_, ?_, ?_, ?_, fun hn => by simpa using h.nro hn⟩
   · intro g hg
     have hg' := List.mem_filter.mp hg
     have hne : g ≠ f := by simpa using hg'.2
@@ -96,7 +112,7 @@ theorem sound_mutate (h0 : ∀ f, s0.cur f < s0.next) (f : Field) (h : Sound s0 
       { a with clean := a.clean.filter (· ≠ f),
                valid := if f ∈ a.fresh then a.valid else a.valid.filter (· ≠ f),
                fresh := f :: a.fresh } := by
-  refine ⟨?_, ?_, ?_, ?_, ?_⟩
+  refine ⟨?_, ?_, ?_, ?_, ?_, fun hn => by simpa using h.nro hn⟩
   · intro g hg
     have hg' := List.mem_filter.mp hg
     have hne : g ≠ f := by simpa using hg'.2
@@ -140,7 +156,8 @@ theorem sound_save (f : Field) (h : Sound s0 s a) :
       { a with valid := if f ∈ a.clean then f :: a.valid else a.valid.filter (· ≠ f) } := by
   refine ⟨fun g hg => by simpa [St.setSaved] using h.clean g hg, ?_,
           fun g hg => by simpa [St.setSaved] using h.fresh g hg,
-          fun p hp => by simpa [St.setSaved] using h.known p hp, by simpa [St.setSaved] using h.next⟩
+          fun p hp => by simpa [St.setSaved] using h.known p hp, by simpa [St.setSaved] using h.next,
+          fun hn => by simpa using h.nro hn⟩
   intro g hg
   by_cases e : g = f
   · subst e
@@ -160,7 +177,8 @@ theorem sound_restore (f : Field) (h : Sound s0 s a) :
       { a with clean := if f ∈ a.valid then f :: a.clean else a.clean.filter (· ≠ f),
                fresh := a.fresh.filter (· ≠ f) } := by
   refine ⟨?_, fun g hg => by simpa [St.setCur] using h.valid g hg, ?_,
-          fun p hp => by simpa [St.setCur] using h.known p hp, by simpa [St.setCur] using h.next⟩
+          fun p hp => by simpa [St.setCur] using h.known p hp, by simpa [St.setCur] using h.next,
+          fun hn => by simpa using h.nro hn⟩
   · intro g hg
     by_cases e : g = f
     · subst e
@@ -181,7 +199,8 @@ theorem sound_restore (f : Field) (h : Sound s0 s a) :
 
 theorem sound_dropFlag (b : Flag) (v : Bool) (h : Sound s0 s a) : Sound s0 (s.setFlag b v) (a.dropFlag b) := by
   refine ⟨fun g hg => by simpa [St.setFlag] using h.clean g hg, fun g hg => by simpa [St.setFlag] using h.valid g hg,
-          fun g hg => by simpa [St.setFlag] using h.fresh g hg, ?_, by simpa [St.setFlag] using h.next⟩
+          fun g hg => by simpa [St.setFlag] using h.fresh g hg, ?_, by simpa [St.setFlag] using h.next,
+          fun hn => by simpa [Abs.dropFlag] using h.nro hn⟩
   intro p hp
   have hp' := List.mem_filter.mp hp
   have hne : p.1 ≠ b := by simpa using hp'.2
@@ -189,7 +208,7 @@ theorem sound_dropFlag (b : Flag) (v : Bool) (h : Sound s0 s a) : Sound s0 (s.se
 
 theorem sound_setFlag (b : Flag) (v : Bool) (h : Sound s0 s a) : Sound s0 (s.setFlag b v) (a.setFlag b v) := by
   have hd := sound_dropFlag b v h
-  refine ⟨hd.clean, hd.valid, hd.fresh, ?_, hd.next⟩
+  refine ⟨hd.clean, hd.valid, hd.fresh, ?_, hd.next, hd.nro⟩
   intro p hp
   simp only [Abs.setFlag, List.mem_cons] at hp
   rcases hp with rfl | hp
@@ -303,16 +322,23 @@ theorem post_sound (s0 : St) (h0 : ∀ f, s0.cur f < s0.next) :
       | skip => simp only [run, post]; exact ⟨a, rfl, hs⟩
       | mark k =>
         simp only [run, post]
-        exact ⟨a, rfl, ⟨hs.clean, hs.valid, hs.fresh, hs.known, hs.next⟩⟩
+        exact ⟨a, rfl, ⟨hs.clean, hs.valid, hs.fresh, hs.known, hs.next, hs.nro⟩⟩
       | assign f => simp only [run, post]; exact ⟨_, rfl, sound_assign f hs⟩
       | mutate f => simp only [run, post]; exact ⟨_, rfl, sound_mutate h0 f hs⟩
       | save f => simp only [run, post]; exact ⟨_, rfl, sound_save f hs⟩
       | restore f => simp only [run, post]; exact ⟨_, rfl, sound_restore f hs⟩
       | guard =>
         simp only [run, post]
-        split
-        · exact ⟨a, rfl, hs⟩
-        · exact ⟨a, rfl, hs⟩
+        cases hn : a.nro with
+        | true =>
+          have := hs.nro hn
+          simp only [this]
+          exact ⟨a, rfl, hs⟩
+        | false =>
+          cases hr : s.readonly with
+          | true => exact ⟨a, rfl, hs⟩
+          | false =>
+            exact ⟨_, rfl, ⟨hs.clean, hs.valid, hs.fresh, hs.known, hs.next, fun _ => hr⟩⟩
       | raise => simp only [run, post]; exact ⟨a, rfl, hs⟩
       | mayRaise =>
         simp only [run, post]
